@@ -467,6 +467,11 @@ class ExprMixin:
             return static("modattr", (base.items, attr))
         if is_static(base, "modattr"):
             return static("modattr", (base.items[0] + "." + base.items[1], attr))
+        if is_static(base, "finfo"):
+            if attr == "eps":       # np.finfo(float).eps: a positive float constant
+                z = z3.RealVal("2.220446049250313e-16") if self.ctx.float_mode != "fp" else z3.FPVal(2.220446049250313e-16, z3.Float64())
+                return V(("float",), z)
+            raise Unsupported(f"np.finfo attribute {attr}")
         if is_static(base, "enumcls"):
             if attr in ENUM_MEMBERS[base.items]:
                 return V(("enum", base.items), z3.IntVal(ENUM_MEMBERS[base.items][attr]))
@@ -636,6 +641,11 @@ class ExprMixin:
         b = self.materialize(st, b, a.t[1])
         if b.t[0] == "tuple":
             b = self.make_list(st, a.t[1], list(b.items))
+        if b.t[0] not in ("list", "nd"):
+            raise Unsupported(f"extend of {a.t} with {b.t}")
+        if self.ctx.sort_of(b.t[1]) != self.ctx.sort_of(a.t[1]) or (is_ref(b.t[1]) != is_ref(a.t[1])) \
+                or (b.t[1][0] in ("list", "nd")) != (a.t[1][0] in ("list", "nd")):
+            raise Unsupported(f"extend of {a.t} with {b.t}: a list of mixed element kinds is outside the subset")
         na, nb = st.seq_len(a), st.seq_len(b)
         ea, eb = st.seq_elems(a), st.seq_elems(b)
         ne = self.ctx.fresh_z("ext", z3.ArraySort(z3.IntSort(), self.ctx.sort_of(a.t[1])))
@@ -834,8 +844,15 @@ class ExprMixin:
         for r in oks:
             _, v, facts, q, s2 = r
             vz = st.coerce(v, et).z
-            guards = [f_ for f_ in facts if f_.get_id() in s2.dec_ids]
-            body = [f_ for f_ in facts if f_.get_id() not in s2.dec_ids] + [res_elems[i] == vz]
+            # facts are kept in path order: a fact holds under the branch decisions taken *before* it (a callee's ensures
+            # that precedes the first decision is unconditional, so that the guards of the paths are exhaustive)
+            guards, early = [], []
+            for f_ in facts:
+                if f_.get_id() in s2.dec_ids:
+                    guards.append(f_)
+                else:
+                    early.append(z3.Implies(z3.And(*guards), f_) if guards else f_)
+            body = [res_elems[i] == vz]
             # Content of the objects created in this iteration.  Cells of unallocated references are unconstrained
             # (every quantified heap fact is guarded by `o < alloc` or by membership), so the content an object
             # gets at allocation is stated directly on the current maps ("pre-filled" view of fresh cells).
@@ -857,7 +874,7 @@ class ExprMixin:
                             body.append(st.map("fnone_" + fname, z3.BoolSort())[ref] == isn)
                         if val.t[0] != "none":
                             body.append(st.map("f_" + fname, self.ctx.sort_of(t))[ref] == st.coerce(val, t).z)
-            conj = z3.Implies(z3.And(*guards), z3.And(*body)) if guards else z3.And(*body)
+            conj = z3.And(*(early + [z3.Implies(z3.And(*guards), z3.And(*body)) if guards else z3.And(*body)]))
             (conj_f,), submap = self._functionize(i, fresh, [conj])
             pats = [res_elems[i]]
             if elem_term is not None:
@@ -875,8 +892,74 @@ class ExprMixin:
         out = st.new_seq(et, kind, n_len, res_elems, "comp")
         return out
 
+    # ---- prefix sums and concatenation of a list of lists ---------------------------------------------------------------------------
+    def fsum_fn(self):
+        ia = z3.ArraySort(z3.IntSort(), z3.IntSort())
+        return z3.Function("fsum", ia, z3.IntSort(), z3.IntSort()), z3.Function("segf", ia, z3.IntSort(), z3.IntSort(), z3.IntSort())
+
+    def fsum_axioms(self, st):
+        """fsum(K, j) = K[0] + .. + K[j-1]; segf(K, n, i) = the segment that owns position i of the concatenation of n
+        segments of lengths K[0..n) (theorems about finite sums of non-negative integers: lemmas/L2.lean)."""
+        if "fsum" in st.axs:
+            return
+        st.axs.add("fsum")
+        f, seg = self.fsum_fn()
+        ia = z3.ArraySort(z3.IntSort(), z3.IntSort())
+        K = z3.Const("fs_K", ia)
+        j, n, i, a, b, k = (z3.Int("fs_" + x) for x in "jniabk")
+        nonneg = qforall([k], z3.Implies(z3.And(k >= 0, k < n), K[k] >= 0), patterns=[K[k]])
+        st.assume(qforall([K], f(K, z3.IntVal(0)) == 0, patterns=[f(K, z3.IntVal(0))]))
+        st.assume(qforall([K, j], z3.Implies(j >= 0, f(K, j + 1) == f(K, j) + K[j]), patterns=[z3.MultiPattern(f(K, j), K[j])]))
+        st.assume(qforall([K, n, a, b], z3.Implies(z3.And(nonneg, 0 <= a, a <= b, b <= n), f(K, a) <= f(K, b)),
+                          patterns=[z3.MultiPattern(f(K, a), f(K, b), f(K, n))]))
+        st.assume(qforall([K, n, i], z3.Implies(z3.And(nonneg, 0 <= i, i < f(K, n)),
+                                                z3.And(0 <= seg(K, n, i), seg(K, n, i) < n, f(K, seg(K, n, i)) <= i,
+                                                       i < f(K, seg(K, n, i)) + K[seg(K, n, i)],
+                                                       f(K, seg(K, n, i) + 1) == f(K, seg(K, n, i)) + K[seg(K, n, i)])),
+                          patterns=[seg(K, n, i)]))
+        s_ = z3.Int("fs_s")
+        st.assume(qforall([K, n, i, s_], z3.Implies(z3.And(nonneg, 0 <= s_, s_ < n, f(K, s_) <= i, i < f(K, s_) + K[s_]), seg(K, n, i) == s_),
+                          patterns=[z3.MultiPattern(seg(K, n, i), f(K, s_))]))
+        self.ctx.tags.add("AX_prefix_sums")
+
     def flatten_comprehension(self, st, n):
-        raise Unsupported("nested comprehension")
+        """[item for v in XS for item in E(v)]: the concatenation of the lists E(v); the list of lists is summarised as a
+        one-generator comprehension, the concatenation by prefix sums of the segment lengths."""
+        if len(n.generators) != 2 or any(g.ifs for g in n.generators):
+            raise Unsupported("nested comprehension")
+        g0, g1 = n.generators
+        if not (isinstance(n.elt, ast.Name) and isinstance(g1.target, ast.Name) and n.elt.id == g1.target.id):
+            raise Unsupported("nested comprehension with a computed element")
+        inner = ast.ListComp(elt=g1.iter, generators=[ast.comprehension(target=g0.target, iter=g0.iter, ifs=[], is_async=0)])
+        ast.copy_location(inner, n)
+        ast.fix_missing_locations(inner)
+        S = self.comprehension(st, inner)
+        if is_static(S, "emptylist"):
+            return S
+        if not (S.t[0] == "list" and S.t[1][0] in ("list", "nd")):
+            raise Unsupported(f"flattening of {S.t}")
+        return self.concat_lists(st, S)
+
+    def concat_lists(self, st, S: V):
+        et = S.t[1][1]
+        f, seg = self.fsum_fn()
+        self.fsum_axioms(st)
+        n_len = st.seq_len(S)
+        sel = st.seq_elems(S)
+        # segment lengths as a canonical array of the defining term
+        probe = z3.Int("ki")
+        seglen = lambda x: st.seq_len(V(S.t[1], sel[x]))  # noqa: E731
+        LK = self.keys_array(st, "seglen:" + seglen(probe).sexpr(), seglen, z3.IntSort())
+        k = z3.Int(self.ctx.fresh_name("k"))
+        st.assume(qforall([k], z3.Implies(z3.And(k >= 0, k < n_len), LK[k] >= 0), patterns=[LK[k]]))
+        total = f(LK, n_len)
+        st.assume(total >= 0)
+        res = self.ctx.fresh_z("flat", z3.ArraySort(z3.IntSort(), self.ctx.sort_of(et)))
+        i = z3.Int(self.ctx.fresh_name("fi"))
+        sg = seg(LK, n_len, i)
+        inner_list = V(S.t[1], sel[sg])
+        st.assume(qforall([i], z3.Implies(z3.And(i >= 0, i < total), res[i] == st.seq_elems(inner_list)[i - f(LK, sg)]), patterns=[res[i]]))
+        return st.new_seq(et, "list", total, res, "flat")
 
     # ---- calls -----------------------------------------------------------------------------------------------------------------------
     def eval_args(self, st, call: ast.Call):
@@ -1088,10 +1171,24 @@ class ExprMixin:
                 st.havoc_alloc()
             self._havoc_locs_in(st, [a_ for a_ in c.assigns if not (fresh_self and a_.startswith("self."))], frame)
             ret = NONE
+            when_key = None
             if c.returns is not None:
-                rt = parse_type(self.ret_type(c))
+                if isinstance(c.returns, dict) and "when" in c.returns:
+                    # the (dynamic) type of the result depends on a condition over the pre-state: one path per alternative
+                    cz = self.truth(st, self._spec_in(st, c.returns["when"], None, frame))
+                    when_key = "then" if self.choose(st, cz) else "else"
+                    rt = parse_type(c.returns[when_key])
+                else:
+                    rt = parse_type(self.ret_type(c))
                 ret = self.ctx.fresh("ret_" + fdef.name, rt)
                 self._assume_wf(st, ret)
+                if st.qmode is None and self.inline_depth == 0:
+                    for nm in getattr(self, "unaliased", ()):     # a list that has not escaped cannot come back from a callee
+                        lv = st.frames[0].get(nm)
+                        if isinstance(lv, V) and lv.t[0] in ("list", "nd") and lv.z is not None:
+                            for x in (ret.items if ret.t[0] == "tuple" else (ret,)):
+                                if is_ref(x.t) and x.z is not None:
+                                    st.assume(x.z != lv.z)
                 if c.fresh_result:
                     self._assume_fresh(st, ret, pre)
             extra = dict(frame)
@@ -1104,6 +1201,9 @@ class ExprMixin:
                 extra[gname] = static("uf", z3.Function(self.ctx.fresh_name(gname), z3.IntSort(), z3.IntSort()))
             for lab, e in c.labelled("ensures"):
                 st.assume(self.truth(st, self._spec_in(st, e, pre, extra)))
+            if when_key is not None:
+                for e in c.ensures_when.get(when_key, []):
+                    st.assume(self.truth(st, self._spec_in(st, e[1] if isinstance(e, tuple) else e, pre, extra)))
             return ret
         finally:
             self.cur_mod = saved_mod
